@@ -180,6 +180,54 @@ R.contract(
     max_paths=40000,
 )
 
+# ------------------------------------------------------------------------------------------------- security parameters: every active scheme that does not clash is added
+SEC = "schemathesis.specs.openapi.security:"
+SecDef = OneOf(DictOf(required={"type": Const("apiKey"), "name": Str, "in": Choice("header", "query")}), DictOf(required={"type": Const("http"), "scheme": Const("basic")}))
+R.contract(SEC + "BaseSecurityProcessor._get_active_definitions", args={"self": Opq("Any"), "schema": Opq("Any"), "operation": Opq("Any"), "resolver": Opq("Any")},
+           returns=ListOf(SecDef, [0, 1, 2, 3]), trusted=True, effects={"active": "list_of(result)"}, note="the security schemes required by the operation (or globally), in document order")
+
+
+def _declared_term(it, name, location):
+    import z3
+    from pyvc.values import z3_of
+
+    return z3.Function("uf:declared_parameter", z3.StringSort(), z3.StringSort(), z3.BoolSort())(z3_of(name), z3_of(location))
+
+
+def _get_parameter(it, env):
+    """operation.get_parameter(name, location): the declared parameter or None - a function of (name, location)."""
+    return fresh_opaque(it, "Parameter") if it.path.branch(_declared_term(it, env["name"], env["location"])) else None
+
+
+R.nominal_methods["spec:SecOperation"] = {"get_parameter": lambda it, obj, a, k: _get_parameter(it, {"name": a[0], "location": a[1]})}
+R.spec_funcs["declared"] = lambda it, name, location: __import__("pyvc.values", fromlist=["wrap"]).wrap(_declared_term(it, name, location))
+R.contract(SEC + "BaseSecurityProcessor.process_api_key_security_definition", args={"self": Opq("Any"), "definition": Opq("Any"), "operation": Opq("Any")}, returns=NoneT, trusted=True,
+           effects={"api_keys": "ghost('api_keys') + [definition]"}, note="adds the apiKey header / query parameter to the operation")
+R.contract(SEC + "BaseSecurityProcessor.process_http_security_definition", args={"self": Opq("Any"), "definition": Opq("Any"), "operation": Opq("Any")}, returns=NoneT, trusted=True,
+           effects={"http": "ghost('http') + [definition]"}, note="adds the Authorization header for http / basic schemes")
+CLASH = "('name' in d and 'in' in d and declared(d['name'], d['in']))"
+
+
+def _same_objects(it, xs, ys):
+    return len(xs) == len(ys) and all(a is b for a, b in zip(xs, ys))
+
+
+R.spec_funcs["same_objects"] = _same_objects
+R.contract(
+    SEC + "BaseSecurityProcessor.process_definitions",
+    prop="C08",
+    args={"self": Obj(SEC + "BaseSecurityProcessor"), "schema": Opq("RawSchema"), "operation": Obj("spec:SecOperation"), "resolver": Opq("Resolver")},
+    ghost={"active": [], "api_keys": [], "http": []},
+    ensures={
+        # the operation is offered with exactly its effective inputs: every active security scheme adds its parameter unless the operation already declares that (name, location)
+        "every_non_clashing_scheme_is_added_once_in_order": "same_objects(ghost('http'), [d for d in ghost('active') if not " + CLASH + "]) and "
+                                                            "same_objects(ghost('api_keys'), [d for d in ghost('active') if d['type'] == 'apiKey' and not " + CLASH + "])",
+    },
+    bounded_note="up to 3 active security schemes",
+    replayable=False,
+    max_paths=20000,
+)
+
 NATIVE = {"helpers": {"list_of": list, "paths_of": lambda self_: self_.raw_schema.get("paths", {})}}
 
 LEVEL_TEXT = ("Deductive: cache representation invariant (inductive over insertions = every access order), operationId index scope rule, effective-parameter rule; "
